@@ -157,8 +157,11 @@ class ProgGen:
 		lobjs = [o1, o2]
 		if sub:
 			objs.append(decl(f'{sub}(2)'))
-			# (a list literal over a class AND its subclass is typed list<Union<C, D>>, on whose elements no attribute resolves:
-			#  defect candidate proposed/C03-union-of-subclasses-attribute.md, kept out of the generated domain)
+			# a list literal over a class AND its subclass is typed list<Union<C, D>>, on whose elements no attribute resolves
+			# (known finding union-of-subclasses-attribute, proposed/C03-union-of-subclasses-attribute.md): low rate
+			if rng.random() < 0.12:
+				lobjs.append(objs[-1])
+				self.count('list-of-base-and-subclass')
 		lst = decl('[' + ', '.join(lobjs) + ']')
 		self.count('list-of-objects')
 		for a, k, _ in attrs:
